@@ -157,9 +157,15 @@ fn convert_http2_headers_to_http_format(
 
     for header in headers {
         let header_name_lower = header.name.to_lowercase();
-        if optional_list.contains(&header_name_lower.as_str()) {
+        if optional_list
+            .iter()
+            .any(|name| name.eq_ignore_ascii_case(&header_name_lower))
+        {
             headers_in_order.push(http::Header::new(&header.name).optional());
-        } else if skip_value_list.contains(&header_name_lower.as_str()) {
+        } else if skip_value_list
+            .iter()
+            .any(|name| name.eq_ignore_ascii_case(&header_name_lower))
+        {
             headers_in_order.push(http::Header::new(&header.name));
         } else {
             headers_in_order
